@@ -637,7 +637,7 @@ func (cs *ContractSet) parseAll() {
 	}
 	for _, c := range cs.allContracts() {
 		for _, cl := range c.Clauses {
-			if cl.Kind == "modifies" {
+			if cl.Kind == "modifies" || cl.Kind == "assert" {
 				continue
 			}
 			e, err := parseSpecExpr(cl.Text)
